@@ -47,4 +47,15 @@ CLAIMED["C01"] = {
     "technique": "Lean 4 theorems over a hand-written model + word table regenerated from source + differential correspondence check",
 }
 
+CLAIMED["C03"] = {
+    "text": "Theorems for all seeds, all paths with indices < 2^31, all hash functions with 64-byte SHA-512 output and all curves with order <= 2^256: the code's derivation equals BIP-32 CKDpriv along the path, made strict at the single point where the code is stricter than the standard (parse256(I_L) = 0 is refused, probability 2^-256) (derive_eq_strict), hence it yields exactly the BIP-32 key or an ordinary error, never a different key and never a panic (derive_spec, strict_sound); the OR-ed hardened bit is the BIP-32 child number (hardened_bit). Tied to src/hdk.rs by deriving BIP-32 test vectors 1 and 2 and random seeds/paths (depth 1..10, index extremes, mixed hardened/normal) and judging every result by an independent CKDpriv with its own HMAC-SHA512 and secp256k1.",
+    "note": COMMON_NOTE + " SecretKey::from_slice / ScalarPrimitive addition at contract level.",
+    "technique": "Lean 4 theorems over a hand-written model + differential correspondence check",
+}
+CLAIMED["C04"] = {
+    "text": "Theorems for all byte strings and all curves: a 32-byte secret is accepted iff it is in [1,n-1] and then is that integer (new_accepts_iff, new_rejects_out_of_range); any other length is rejected or read as the same big-endian integer, never a panic (new_other_lengths); the exported secret re-imports to the same key (secret_roundtrip); the public key is 0x04||X||Y of d*G, 65 bytes (pubkey_spec); the address is the last 20 bytes of Keccak-256 of the 64 coordinate bytes (address_spec); the display is EIP-55: each hex digit upper-cased exactly when the matching nibble of keccak256(lower-case hex) is >= 8, and it still spells the address (eip55_spec, eip55_decodes). Tied to src/account.rs by boundary scalars (1,2,n-2,n-1,0,n,n+1,2^256-1), random scalars and every length 0..64, judged by independent secp256k1/Keccak/EIP-55.",
+    "note": COMMON_NOTE,
+    "technique": "Lean 4 theorems over a hand-written model + differential correspondence check",
+}
+
 NOT_YET = {}
